@@ -224,6 +224,7 @@ type ScenResult struct {
 	SoloUnstable int          `json:"solo_unstable"`
 	OpsRun     int            `json:"ops"`
 	StepCap    bool           `json:"step_cap,omitempty"`
+	DecOverflow bool          `json:"dec_overflow,omitempty"`
 }
 
 func soloCfg(sc *Scenario) simrt.Config {
@@ -300,6 +301,7 @@ func runScenario(sc *Scenario, raceLog *raceWatch) *ScenResult {
 	res.Overlap, res.Faults, res.MapPerms, res.LockSpins, res.Sites = r.Overlap, r.FaultsFired, r.MapPerms, r.LockSpins, r.SitesSwitched
 	res.Outcomes = conc
 	res.StepCap = r.StepCap
+	res.DecOverflow = r.DecOverflow
 	for _, o := range conc {
 		res.OpsRun += len(o)
 	}
